@@ -3,7 +3,7 @@
 P="$1"; shift
 cd /repo || exit 2
 git diff --quiet || { echo "/repo not clean"; exit 2; }
-git apply "$P" 2>/dev/null || git apply --3way "$P" || { echo APPLY-FAILED; git checkout -- . ; exit 2; }
+git apply "$P" 2>/dev/null || git apply --3way "$P" || { echo APPLY-FAILED; git checkout -f -q HEAD -- . ; exit 2; }
 cd /verif
 ./check "$@" 2>&1 | grep -E "^(VIOLATION|INCONCLUSIVE|ENGINE-ERROR|KNOWN|C[0-9]+ \[)" | cut -c1-330
 RC=${PIPESTATUS[0]}
